@@ -725,7 +725,9 @@ func (server *Server) registerCoreExecutors() {
 			return nil, err
 		}
 
-		msg, err := server.userCommandHandler.ZRange(conn, key, start, stop, opt)
+		// The members start..stop of the descending order are the members -stop-1..-start-1
+		// of the ascending order, reversed.
+		msg, err := server.userCommandHandler.ZRange(conn, key, ^stop, ^start, opt)
 		if err != nil {
 			return msg, err
 		}
